@@ -101,22 +101,30 @@ var ruleFoundKept = &Rule{
 							succs := b.Succs
 							if iff, ok := x.(*ssa.If); ok {
 								resolve := func(v ssa.Value) ssa.Value { return twinResolve(v, env) }
-								t := triUnknown
-								cond := resolve(iff.Cond)
-								if ct, _ := collTruth(cond, coll, true, resolve, 0); ct != triUnknown {
-									t = ct
-								} else if bo, ok := cond.(*ssa.BinOp); ok && (bo.Op == token.EQL || bo.Op == token.NEQ) {
-									x0, y0 := stripConv(resolve(bo.X)), stripConv(resolve(bo.Y))
-									switch {
-									case x0 == stV:
-										if k, ok := constInt(y0); ok {
-											t = triOf((k == okK) == (bo.Op == token.EQL))
-										}
-									case errV != nil && x0 == errV && isNilConst(y0):
-										t = triOf(bo.Op == token.EQL)
+								atom := func(cond ssa.Value) tri {
+									if ct, _ := collTruth(cond, coll, true, resolve, 0); ct != triUnknown {
+										return ct
 									}
-								} else if cc, ok := cond.(*ssa.Call); ok && p.isFailedMethod(cc.Call.StaticCallee()) && len(cc.Call.Args) > 0 && stripConv(resolve(cc.Call.Args[0])) == stV {
-									t = triFalse
+									if bo, ok := cond.(*ssa.BinOp); ok && (bo.Op == token.EQL || bo.Op == token.NEQ) {
+										x0, y0 := stripConv(resolve(bo.X)), stripConv(resolve(bo.Y))
+										switch {
+										case x0 == stV:
+											if k, ok := constInt(y0); ok {
+												return triOf((k == okK) == (bo.Op == token.EQL))
+											}
+										case errV != nil && x0 == errV && isNilConst(y0):
+											return triOf(bo.Op == token.EQL)
+										}
+									} else if cc, ok := cond.(*ssa.Call); ok && p.isFailedMethod(cc.Call.StaticCallee()) && len(cc.Call.Args) > 0 && stripConv(resolve(cc.Call.Args[0])) == stV {
+										return triFalse
+									}
+									return triUnknown
+								}
+								cond := resolve(iff.Cond)
+								t := atom(cond)
+								if pc, ok := cond.(*ssa.Call); ok && t == triUnknown {
+									// a named test (`anyItemDone(res, found)`)
+									t = predTruth(pc, atom, 0)
 								}
 								switch t {
 								case triTrue:
@@ -413,6 +421,24 @@ func contradictory(fs []Fact, consts map[*ssa.Parameter]int64) bool {
 		if _, isC := foldInt(subj, consts, 0); isC {
 			continue
 		}
+		// `y - c op k` is `y op k + c` (and `y + c op k` is `y op k - c`): the
+		// digit's value `ch - '0'` against a base says where ch lies
+		for i := 0; i < 3; i++ {
+			sb, ok := stripConvPlain(subj).(*ssa.BinOp)
+			if !ok || (sb.Op != token.SUB && sb.Op != token.ADD) {
+				break
+			}
+			c, isC := foldInt(sb.Y, consts, 0)
+			if !isC {
+				break
+			}
+			if sb.Op == token.SUB {
+				k += c
+			} else {
+				k -= c
+			}
+			subj = sb.X
+		}
 		if !f.Truth {
 			switch op {
 			case token.LSS:
@@ -645,6 +671,12 @@ var ruleCollGuard = &Rule{
 									okCall = true
 								}
 								if sc := x.Call.StaticCallee(); sc != nil && (tinyPredicate(sc) || purePredicate(sc) || p.modePredicate(sc) != "") {
+									okCall = true
+								}
+								// the evaluation into a list made for the occasion,
+								// in a function of its own (`exec.queryComplete(ctx,
+								// node, value)`): about the collector as well
+								if sc := x.Call.StaticCallee(); sc != nil && !x.Call.IsInvoke() && p.collectsIntoOwnList(sc) && len(p.execStores(sc)) == 0 {
 									okCall = true
 								}
 								if !okCall && bad == "" {
